@@ -223,3 +223,140 @@ def documented_lists(W):
         out.append(("ends", T_uint(2), [(0, 1), (W - 1, 1)]))
         out.append(("mid single in list", T_uint(1), [(W // 2, 1)]))
     return out
+
+
+# ---- register-like multi-field layouts ----------------------------------------------------------
+def _mk_field_type(rnd, w, aux, allow_custom=True):
+    """pick a presentation for a w-bit field; may append an aux declaration"""
+    opts = []
+    if w == 1:
+        opts = ["bool", "bool", "u1"]
+        if allow_custom:
+            opts.append("enum1")
+    elif is_native(w):
+        opts = ["uint", "uint", "int"]
+        if allow_custom and w <= 64:
+            opts.append("optenum")
+    else:
+        opts = ["uint", "uint", "uint"]
+        if allow_custom and w <= 4:
+            opts.append("enum")
+        if allow_custom and w <= 64:
+            opts.append("optenum")
+    if allow_custom:
+        opts.append("custom")
+    k = rnd.choice(opts)
+    n = len(aux)
+    if k == "bool":
+        return T_bool()
+    if k == "u1":
+        return T_uint(1)
+    if k == "uint":
+        return T_uint(w)
+    if k == "int":
+        return T_int(w)
+    if k in ("enum", "enum1"):
+        e = full_enum(f"E{n}", w)
+        aux.append(e)
+        return FType("enum", w, e)
+    if k == "optenum":
+        top = (1 << w) - 1
+        ds = sorted(set([0, top] + [rnd.getrandbits(w) for _ in range(3)]))
+        if len(ds) == (1 << w):
+            ds = ds[:-1]
+        e = sparse_enum(f"E{n}", w, ds, None)
+        aux.append(e)
+        return FType("optenum", w, e)
+    aux.append(custom_decl(f"Cust{n}", w))
+    return FType("custom", w, None, f"Cust{n}")
+
+
+def tiled_layout(rnd, W, complete=True, default=None, max_fields=8, access_mix=True, allow_custom=True, tag=""):
+    """fields tile [0, W) without overlap (complete) or leave gaps (not complete); mixes scalar,
+    array and list fields"""
+    aux, fields = [], []
+    pos = 0
+    idx = 0
+    remaining_fields = rnd.randint(2, max_fields)
+    while pos < W:
+        left = W - pos
+        if not complete and rnd.random() < 0.25 and left > 1:
+            pos += rnd.randint(1, max(1, left // 4))  # gap
+            continue
+        last = (remaining_fields <= 1)
+        kind = rnd.choice(["scalar", "scalar", "scalar", "array", "list"]) if left >= 4 else "scalar"
+        if last and complete:
+            kind = "scalar" if left <= 128 else "scalar"
+        name = f"f{idx}"
+        if kind == "scalar":
+            w = left if (last and complete) else rnd.randint(1, min(left, rnd.choice([1, 3, 8, 16, 32, 64, left])))
+            w = max(1, min(w, left))
+            ty = _mk_field_type(rnd, w, aux, allow_custom)
+            fields.append(Field(name, ty, [(pos, w)], None, "rw"))
+            pos += w
+        elif kind == "array":
+            K = rnd.randint(2, min(8, left // 1))
+            w = max(1, min(rnd.choice([1, 2, 3, 4, 8, 16]), left // K))
+            K = min(K, left // w)
+            if K < 2:
+                continue
+            gap = 0 if complete else rnd.choice([0, 0, 1, 2])
+            s = w + gap
+            while (K - 1) * s + w > left:
+                K -= 1
+            if K < 2:
+                continue
+            ty = _mk_field_type(rnd, w, aux, allow_custom)
+            fields.append(Field(name, ty, [(pos, w)], (K, s, s != w or rnd.random() < 0.3), "rw"))
+            pos += (K - 1) * s + w
+        else:  # list of two or three adjacent chunks in shuffled order (still tiles)
+            w = rnd.randint(2, min(left, 16))
+            parts = rnd.randint(2, min(3, w))
+            cuts = sorted(rnd.sample(range(1, w), parts - 1))
+            sizes = [b - a for a, b in zip([0] + cuts, cuts + [w])]
+            rs, p = [], pos
+            for n in sizes:
+                rs.append((p, n))
+                p += n
+            rnd.shuffle(rs)
+            ty = list_type_for(rnd, w)
+            fields.append(Field(name, ty, rs, None, "rw"))
+            pos += w
+        idx += 1
+        remaining_fields -= 1
+        if remaining_fields <= 0 and not complete:
+            break
+    if access_mix:
+        for f in fields:
+            f.access = rnd.choice(["rw", "rw", "rw", "w"] + ([] if complete else ["r"]))
+    L = Layout(W, fields, default=default, aux=aux, tag=tag)
+    return L
+
+
+def overlapping_layout(rnd, W, nfields=5, tag=""):
+    """fields placed independently: they may overlap each other (aliasing must be coherent)"""
+    aux, fields = [], []
+    for idx in range(nfields):
+        kind = rnd.choice(["scalar", "scalar", "array", "list"]) if W >= 8 else "scalar"
+        name = f"f{idx}"
+        if kind == "scalar":
+            w = rnd.choice([1, 2, 3, 8, 16, 32, rnd.randint(1, W)])
+            w = min(w, W)
+            lo = rnd.randint(0, W - w)
+            fields.append(Field(name, _mk_field_type(rnd, w, aux), [(lo, w)], None, "rw"))
+        elif kind == "array":
+            w = rnd.choice([1, 2, 4, 8])
+            K = rnd.randint(2, 4)
+            s = w + rnd.choice([0, 0, 1, 3])
+            span = (K - 1) * s + w
+            if span > W:
+                continue
+            lo = rnd.randint(0, W - span)
+            fields.append(Field(name, _mk_field_type(rnd, w, aux), [(lo, w)], (K, s, s != w), "rw"))
+        else:
+            w = rnd.randint(2, min(12, W))
+            rs = random_list(rnd, W, w, parts=rnd.randint(2, min(3, w)))
+            fields.append(Field(name, list_type_for(rnd, w), rs, None, "rw"))
+    if not fields:
+        fields.append(Field("f0", T_bool(), [(0, 1)], None, "rw"))
+    return Layout(W, fields, aux=aux, tag=tag)
